@@ -835,3 +835,73 @@ K("c07k-new-form-fresh-shape",
 K("c07k-row-regex-respelled",
   ("parser_spec", "(r\"DD\", r\"(?P<day_of_month>[0-9][0-9])\",",
    "(r\"DD\", r\"(?P<day_of_month>[0-9]{2})\","))
+
+
+# ================================================== R26 - R29 sign / tables ==
+B("c06-sign-hours-only-property", ["C06", "C08", "C17"], ["R26"],
+  ("data", "        if self._time_zone._hours < 0 or self._time_zone._minutes < 0:\n            return \"-\"",
+   "        if self._time_zone._hours < 0:\n            return \"-\""), canary=True)
+B("c06-sign-hours-only-zone-str", ["C06"], ["R26"],
+  ("data", "            if self._hours < 0 or (self._hours == 0 and self._minutes < 0):",
+   "            if self._hours < 0:"))
+B("c18-sign-hours-only-format", ["C18"], ["R26"],
+  ("timezone", "    sign = \"-\" if (utc_offset_hours < 0 or utc_offset_minutes < 0) else \"+\"",
+   "    sign = \"-\" if utc_offset_hours < 0 else \"+\""), canary=True)
+B("c07-zone-minute-not-negated", ["C07"], ["R26"],
+  ("parsers", "            if \"time_zone_minute\" in time_zone_info:\n"
+              "                time_zone_info[\"time_zone_minute\"] = (\n"
+              "                    -int(time_zone_info[\"time_zone_minute\"]))\n", ""),
+  canary=True)
+B("c07-year-sign-before-expanded", ["C07"], ["R26"],
+  (lambda texts: _move_block_after(
+      texts, "parsers",
+      "            if date_info.pop(\"year_sign\", \"+\") == \"-\":\n                year *= -1\n",
+      "            year += 100 * int(date_info.pop(\"century\", 0))\n")))
+B("c18-hours-floor-division", ["C18"], ["R26"],
+  ("timezone", "    utc_offset_hours = sign * ((sign * utc_offset_seconds) // 3600)",
+   "    utc_offset_hours = utc_offset_seconds // 3600"))
+B("c18-minutes-floor-division", ["C18"], ["R26"],
+  ("timezone", "    utc_offset_minutes = (utc_offset_seconds // 60) % (sign * 60)",
+   "    utc_offset_minutes = (utc_offset_seconds // 60) % 60"))
+B("c10-sign-not-applied-to-seconds", ["C10"], ["R26"],
+  ("parsers", "                result_map[key] = value * sign_factor",
+   "                result_map[key] = value if key == \"seconds\" else value * sign_factor"))
+B("c17-epoch-reader-unsigned", ["C17"], ["R26"],
+  ("parser_spec", "r\"(?P<seconds_since_unix_epoch>-?[0-9]+[,.]?[0-9]*)\"",
+   "r\"(?P<seconds_since_unix_epoch>[0-9]+[,.]?[0-9]*)\""),
+  canary=True, note="revert of fix D6")
+B("c10-designators-swapped-in-str", ["C10"], ["R27"],
+  ("data", "(\"hours\", \"H\"), (\"minutes\", \"M\"),", "(\"minutes\", \"H\"), (\"hours\", \"M\"),"),
+  canary=True)
+B("c10-seconds-parsed-int", ["C10"], ["R27"],
+  ("parsers", "                if key in [\"years\", \"months\", \"days\", \"weeks\"]:",
+   "                if key in [\"years\", \"months\", \"days\", \"weeks\", \"seconds\"]:"))
+B("c10-T-after-hours", ["C10"], ["R27"],
+  ("data", "            if prop_ == \"days\":\n                content_string += \"T\"",
+   "            if prop_ == \"hours\":\n                content_string += \"T\""))
+B("c10-datetime-like-month-into-days", ["C10"], ["R27"],
+  ("parsers", "                result_map[\"months\"] = timepoint._month_of_year\n"
+              "                result_map[\"days\"] = timepoint._day_of_month",
+   "                result_map[\"months\"] = timepoint._day_of_month\n"
+   "                result_map[\"days\"] = timepoint._month_of_year"))
+B("c10-empty-duration-spelling", ["C10"], ["R27"],
+  ("data", "        if not self:\n            return \"P0Y\"", "        if not self:\n            return \"P0\""))
+B("c14-str-fmt4-order", ["C14"], ["R28"],
+  ("data", "            return prefix + duration_str + \"/\" + str(self._end_point)",
+   "            return prefix + str(self._end_point) + \"/\" + duration_str"), canary=True)
+B("c14-parser-start-into-end", ["C14"], ["R28"],
+  ("parsers", "                start_point=start_point,\n                end_point=end_point,",
+   "                start_point=end_point,\n                end_point=start_point,"))
+B("c17-d-maps-to-day-of-year", ["C17"], ["R29"],
+  ("parser_spec", "    \"%d\": [\"day_of_month\"],", "    \"%d\": [\"day_of_year\"],"), canary=True)
+B("c17-F-diverges", ["C17"], ["R29"],
+  ("parser_spec", "    \"%F\": [\"century\", \"year_of_century\", \"-\", \"month_of_year\", \"-\",\n           \"day_of_month\"],",
+   "    \"%F\": [\"century\", \"year_of_century\", \"-\", \"day_of_month\", \"-\",\n           \"month_of_year\"],"))
+B("c17-unknown-directive-literal", ["C17"], ["R29"],
+  ("parser_spec", "    if strftime_token not in STRFTIME_TRANSLATE_INFO:\n        raise StrftimeSyntaxError(strftime_token)",
+   "    if strftime_token not in STRFTIME_TRANSLATE_INFO:\n        return strftime_token, []"))
+B("c17-extra-directive", ["C17"], ["R29"],
+  ("parser_spec", "    \"%d\": [\"day_of_month\"],", "    \"%d\": [\"day_of_month\"],\n    \"%e\": [\"day_of_month\"],"))
+K("c10k-decimal-mark-equivalent",
+  ("parsers", "                    if \",\" in value:\n                        value = value.replace(\",\", \".\")",
+   "                    value = value.replace(\",\", \".\")"))
